@@ -227,7 +227,11 @@ impl Server {
         chitchat: Arc<Mutex<Chitchat>>,
         transport: Box<dyn Socket>,
     ) -> Self {
+        #[cfg(not(feature = "verif"))]
         let rng = SmallRng::from_rng(&mut rng());
+        // Seedable peer selection for the verification harness (feature `verif` only).
+        #[cfg(feature = "verif")]
+        let rng = crate::verif::server_rng().unwrap_or_else(|| SmallRng::from_rng(&mut rng()));
         Self {
             chitchat,
             command_rx,
